@@ -184,6 +184,10 @@ func vfSetup(t *testing.T) *vfPop {
 		}
 		vs := vNewSession(len(p.sess), uid, lvl)
 		vs.s.remoteAddr = "127.0.0.1:5555"
+		// as NewSession does: a session the store does not know would survive the eviction of its user
+		globals.sessionStore.lock.Lock()
+		globals.sessionStore.sessCache[vs.s.sid] = vs.s
+		globals.sessionStore.lock.Unlock()
 		vs.s.lang = "en"
 		p.sess[name] = vs
 		return vs
@@ -238,6 +242,7 @@ func vfSetup(t *testing.T) *vfPop {
 
 func (p *vfPop) teardown() {
 	for _, vs := range p.sess {
+		globals.sessionStore.Delete(vs.s)
 		vs.s.cleanUp(true)
 		<-vs.done
 	}
@@ -367,7 +372,7 @@ func vfKinds(msg *ClientComMessage) (string, string, string) {
 
 // facts about the state before the input, computed independently of the code under test, for the
 // model correspondence: v=ver set, u=logged in, r=root, a=session attached to the addressed topic,
-// l=topic loaded in the hub, s=subscription row of the acting user exists in the store
+// l=topic loaded in the hub, s=live subscription row of the user exists in the store, d=row incl. soft-deleted
 func vfPre(s *Session, topic string) string {
 	b := func(x bool) string {
 		if x {
@@ -388,19 +393,27 @@ func vfPre(s *Session, topic string) string {
 	case strings.HasPrefix(topic, "chn"):
 		name = "grp" + topic[3:]
 	}
-	att, loaded, srow := false, false, false
+	att, loaded, srow, drow := false, false, false, false
 	if name != "" {
 		s.subsLock.RLock()
 		_, att = s.subs[name]
 		s.subsLock.RUnlock()
 		loaded = globals.hub.topicGet(name) != nil
 		if !s.uid.IsZero() {
-			if sub, err := store.Subs.Get(name, s.uid, false); err == nil && sub != nil {
+			// the offline handlers look the row up under the channel name when addressed as chnXXX
+			rowName := name
+			if strings.HasPrefix(topic, "chn") {
+				rowName = topic
+			}
+			if sub, err := store.Subs.Get(rowName, s.uid, false); err == nil && sub != nil {
 				srow = true
+			}
+			if sub, err := store.Subs.Get(rowName, s.uid, true); err == nil && sub != nil {
+				drow = true // including soft-deleted rows ({get sub} reads those too)
 			}
 		}
 	}
-	return "v" + b(s.ver != 0) + "u" + b(!s.uid.IsZero()) + "r" + b(s.authLvl == auth.LevelRoot) + "a" + b(att) + "l" + b(loaded) + "s" + b(srow)
+	return "v" + b(s.ver != 0) + "u" + b(!s.uid.IsZero()) + "r" + b(s.authLvl == auth.LevelRoot) + "a" + b(att) + "l" + b(loaded) + "s" + b(srow) + "d" + b(drow)
 }
 
 func vfHexS(s string) string { return vHex([]byte(s)) }
